@@ -255,28 +255,26 @@ func (s *session) close() {
 
 // ---- misc -------------------------------------------------------------------------
 
-// goroutineDump returns the stacks of goroutines that are inside gouroboros or
-// this package (clipped), for bounded-liveness reports.
+// goroutineDump returns the stacks (clipped) of the goroutines that mention one
+// of the filter strings; goroutines matching the first filter come first. Used
+// for bounded-liveness reports.
 func goroutineDump(filter ...string) string {
-	buf := make([]byte, 4<<20)
+	buf := make([]byte, 8<<20)
 	buf = buf[:runtime.Stack(buf, true)]
+	gs := strings.Split(string(buf), "\n\n")
 	var out []string
-	for _, g := range strings.Split(string(buf), "\n\n") {
-		keep := false
-		for _, f := range filter {
-			if strings.Contains(g, f) {
-				keep = true
+	seen := map[int]bool{}
+	for _, f := range filter {
+		for i, g := range gs {
+			if seen[i] || !strings.Contains(g, f) || len(out) >= 10 {
+				continue
 			}
-		}
-		if keep {
+			seen[i] = true
 			lines := strings.Split(g, "\n")
-			if len(lines) > 14 {
-				lines = lines[:14]
+			if len(lines) > 13 {
+				lines = lines[:13]
 			}
 			out = append(out, strings.Join(lines, "\n"))
-		}
-		if len(out) >= 12 {
-			break
 		}
 	}
 	return strings.Join(out, "\n\n")
@@ -290,7 +288,13 @@ func genPlan(rt *rapid.T, label string) rawpeer.Plan {
 		return &rawpeer.SeqPlan{Chunks: []int{0}, Yields: []int{1}}
 	default:
 		chunks := rapid.SliceOfN(rapid.SampledFrom([]int{1, 2, 3, 7, 8, 9, 64, 1000, 4096, 0}), 1, 5).Draw(rt, label+"_chunks")
-		yields := rapid.SliceOfN(rapid.SampledFrom([]int{0, 0, 1, 1, 20, 200}), 1, 4).Draw(rt, label+"_yields")
+		ys := []int{0, 0, 1, 1, 20, 200}
+		for _, c := range chunks {
+			if c > 0 && c < 1000 {
+				ys = []int{0, 0, 1} // tiny reads: never sleep per read (a 100 KiB block would take minutes)
+			}
+		}
+		yields := rapid.SliceOfN(rapid.SampledFrom(ys), 1, 4).Draw(rt, label+"_yields")
 		return &rawpeer.SeqPlan{Chunks: chunks, Yields: yields}
 	}
 }
